@@ -1,7 +1,9 @@
 """C01 - parser accepts exactly the grammar, fails only with positioned syntax errors."""
 import contracts.lexer as LEX
+import contracts.string_utils as SU
+import spec.text as ST
 from vf import engine_a, frontend
-from vf.report import Run
+from vf.report import MachineryDefect, Run
 
 
 def check(tier, seed):
@@ -9,7 +11,8 @@ def check(tier, seed):
     ns = frontend.spec_namespace()
     jobs = 16
     # --- A. deductive: every Lexer method against the functional lexical specification -------------
-    verdicts = engine_a.run(run, LEX.CONTRACTS, ns, {}, frontend.lexer_instantiate, jobs=jobs,
+    ns.update({k: v for k, v in vars(ST).items() if not k.startswith("__")})
+    verdicts = engine_a.run(run, LEX.CONTRACTS + SU.CONTRACTS, ns, {}, engine_a.generic_instantiate(), jobs=jobs,
                             timeout_ms=20000 if tier == "thorough" else 10000)
     run.cov["parts"]["engine_a"] = verdicts
     # --- B. validation of the functional specification against the declarative grammar -------------
@@ -31,6 +34,29 @@ def check(tier, seed):
     run.cov["bounded_functions"].append({"functions": sorted(evals), "bound": "corpus of %d texts (frontend.lexer_corpus, tier %s)" % (total, tier)})
     for clause, witness, detail in fails:
         run.violation(clause, detail, witness, True)
+    # --- D. whole pipeline: parser verdict == Earley verdict over the specification grammar -----------
+    nitems, total2, accepted2, pfails = frontend.pipeline_check(tier, seed, jobs=jobs)
+    run.cov["evaluations"] += total2
+    run.cov["distinct_nontrivial"] += accepted2
+    run.cov["parts"]["pipeline_vs_earley"] = {"texts": nitems, "parser_runs": total2, "accepted_runs": accepted2,
+                                              "flag_combinations": len(frontend.FLAG_COMBOS), "entries": ["document", "value", "type"]}
+    if accepted2 == 0 or nitems == 0:
+        raise MachineryDefect("pipeline corpus is vacuous")
+    for clause, witness, detail in pfails:
+        run.violation(clause, detail, witness, True)
+    # --- E. error rendering for every position inside the text ---------------------------------------
+    nr, rfails = frontend.render_check(tier)
+    run.cov["evaluations"] += nr
+    run.cov["parts"]["render_check"] = {"text_position_pairs": nr, "exhaustive": True}
+    for clause, witness, detail in rfails:
+        run.violation(clause, detail, witness, True)
+    # --- F. the single named case: nesting deeper than the interpreter's recursion budget -------------
+    probe = frontend.recursion_probe()
+    run.cov["parts"]["recursion_probe"] = probe
+    for name, outcome in probe.items():
+        if outcome not in ("accepted", "GraphQLSyntaxError"):
+            run.violation("parse:only-syntax-errors", "5000-deep %s: parser raised %s" % (name, outcome),
+                          {"probe": name, "exc": outcome, "depth": 5000}, True)
     run.sample({"text": '"\\u00e9" 1.5e-3 name', "tokens": frontend.spec_tokens('"\\u00e9" 1.5e-3 name')})
     run.cov["rule"] = ("texts enumerated over a class-representative alphabet and token-piece alphabets; non-trivial = "
                        "texts the lexer accepts (distinct by construction)")
